@@ -10,7 +10,7 @@ EXPLANATION = (
     "{WordBoundary, NotWordBoundary, Unknown}. R04.3: the text-character position is literal on both sides."
 )
 THOROUGH_CONFIGS = [C.MINIMAL, C.NO_TAG]
-QUICK_CONFIGS = [C.NO_TAG]
+QUICK_CONFIGS = [C.NO_TAG, C.MINIMAL]
 NOT_DECIDED = ["equality after re-parse as a value"]
 
 WP = C.S + "::write_partial_annotation_text"
